@@ -16,8 +16,9 @@ import ast
 from .core import AnchorError, Unsupported
 from .e1_srcmodel import qualname_of
 from .c09_terms import World, Unsup, is_tag, is_const, subterms, contains, show, NONE, ZEROS, EMPTY
-from .c09_blocks import norm as bnorm, fragile
-from .c09_run import explore, join_index, live_in, compatible, equal_mod_alloc, diff_text, resolve, mode_atoms, extend_join
+from .c09_blocks import norm as bnorm, fragile, Facts, length_of, _lin_parts
+from .c09_run import (explore, join_index, live_in, compatible, equal_mod_alloc, diff_text, resolve, mode_atoms, extend_join, first_use, tail_test,
+                      READ, MAYREAD)
 
 SRS = "pyyeti/srs.py"
 FDE = "pyyeti/fdepsd.py"
@@ -98,6 +99,10 @@ def wname(L):
 
 def label(sim, oid):
     labs = sim.heap[oid].labels
+    pg = set().union(*[mi.proc_globals for mi in sim.world.mods.values()])
+    for l in labs:
+        if l in pg or "[" in l:          # the process-global name (or state-dict entry) the workers know the object by
+            return l
     for l in labs:
         if l.endswith("_"):
             return l
@@ -125,7 +130,38 @@ def lv_positions(sel, lv):
 
 
 def comparable_diff(a, b):
-    return a != b and (contains(a, b) or contains(b, a) or (is_const(a) and is_const(b)))
+    """two iteration counts / axis lengths that provably differ: their difference, in integer-affine normal form over sizes (len(...), .size - all
+    at least 1 for a non-empty problem), is a non-zero constant or has one definite sign.  `min(n, len(x))` against n, `int(n)` against n and the
+    like are not decided here (the caller leaves them uncompared)."""
+    if a == b:
+        return False
+    facts = Facts()
+    def length(t):
+        r = length_of(t, facts)
+        if r is None and not any(is_tag(x, "min") for x in subterms(t)):
+            r = bnorm(t)            # a length this algebra does not look into: an opaque non-negative integer
+        return r
+    la, lb = length(a), length(b)
+    if la is None or lb is None:
+        return False
+    (ca, da), (cb, db) = _lin_parts(bnorm(la)), _lin_parts(bnorm(lb))
+    d = dict(da)
+    for k, v in db.items():
+        d[k] = d.get(k, 0) - v
+    d = {k: v for k, v in d.items() if v != 0}
+    c = ca - cb
+    if not d:
+        return c != 0
+    if not all(_is_size(k, facts) for k in d):
+        return False
+    return (c >= 0 and all(v > 0 for v in d.values())) or (c <= 0 and all(v < 0 for v in d.values()))
+
+
+def _is_size(t, facts):
+    return (is_tag(t, "attr") and t[2] == "size") or (is_tag(t, "call") and t[1] == ("ext", "builtins.len")) or \
+        (is_tag(t, "bin") and t[1] == "Mult" and _is_size(t[2], facts) and _is_size(t[3], facts))
+
+
 
 
 def _task_axes(sim, L):
@@ -392,6 +428,7 @@ def r3_no_other_channel(ctx):
 def r4_lifecycle(ctx):
     an = analysis(ctx)
     ag = Agg(ctx)
+    undecided = set()
     for q, (rel, fn, K, live, leaves) in an.entries.items():
         for lf in leaves:
             sim = lf.sim
@@ -437,14 +474,21 @@ def r4_lifecycle(ctx):
                 ag.add(f"{q}: result buffers are read by the parent only after every task has finished [{w}]", not pr,
                        pr[0].node if pr else L.node, [src(r.node) for r in pr])
                 ok = L.drained and (pool.end_seq is None or L.drain_seq < pool.end_seq)
-                ag.add(f"{q}: the result iterator is exhausted before the pool is shut down [{w}]", ok, L.node,
-                       None if ok else ("never consumed" if not L.drained else "consumed after the pool was terminated"))
+                if not L.drained and sim.relem_uses:
+                    # the iterator was handed to a callable the analysis does not know as a consumer: it may well exhaust it
+                    undecided.add((f"{q}: the result iterator is exhausted before the pool is shut down [{w}]: it is handed to "
+                                   f"`{src(sim.relem_uses[0][1])}`, which the analysis does not know to consume it", L.node))
+                else:
+                    ag.add(f"{q}: the result iterator is exhausted before the pool is shut down [{w}]", ok, L.node,
+                           None if ok else ("never consumed" if not L.drained else "consumed after the pool was terminated"))
                 post = [r for r in sim.reads if r.ctx[0] == "parent" and r.oid in written and r.seq > hi] if L.drained else []
                 outs = any(any(is_tag(x, "ref") and x[1] in written for x in subterms(v)) for v in lf.fr.locals.values()
                            if isinstance(v, tuple)) or any(any(is_tag(x, "ref") and x[1] in written for x in subterms(v))
                                                            for o in sim.heap.values() for v in o.entries.values())
                 ag.add(f"{q}: the outputs are taken from the shared buffers after the tasks [{w}]", bool(post) or outs or lf.ret is not None, L.node)
     ag.flush()
+    for text, node in sorted(undecided, key=lambda x: x[0]):
+        ctx.error(text, node, "undecided")
 
 
 # ------------------------------------------------------------------------------------------------------------------- R4b
@@ -474,7 +518,10 @@ def r4b_shared_buffer_io(ctx):
                esc[0].node if esc else fn, [e.note for e in esc])
         st = [e for e in o.events if e.kind == "store"]
         dts = [d for oid, d, n in sim.views if oid == o.oid]
-        ok = bool(st) and st[-1].sel == () and lf.term(st[-1].value) == arr and all(d in FLOAT64 for d in dts) and bool(dts)
+        whole = bool(st) and st[-1].sel == () and (lf.term(st[-1].value) == arr or
+                                                  # the flattened input through the flat view (C order, like the shaped views that read it)
+                                                  (st[-1].shape is None and lf.term(st[-1].value) == ("call", ("ext", "numpy.ravel"), (arr,), ())))
+        ok = whole and all(d in FLOAT64 for d in dts) and bool(dts)
         ag.add("copyToSharedArray fills the shared buffer by assigning the input to a float64 np.frombuffer view (numpy converts the dtype), "
                "on every path", ok, st[-1].node if st else fn,
                None if ok else {"stores": [f"[{', '.join(show(x) for x in e.sel)}] <- {show(e.value)[:80]}" for e in st], "view dtypes": [show(d) if d else "default" for d in dts]})
@@ -604,8 +651,16 @@ def r5_serial_equals_worker(ctx):
                     if rp is None or rs is None:
                         if n in an.world.mods[rel].imports or n in an.world.mods[rel].funcs:
                             continue
-                        ag.add(f"{q}: `{n}`, which the code after the parallel/serial split reads, is bound on both paths [{ws}]", False, fn,
-                               "unbound on the " + ("parallel" if rp is None else "serial") + " path")
+                        # judged on the path that lacks the binding: does the code after the split read the name there before it rebinds it?
+                        lack = p if rp is None else s
+                        use = first_use(fn.body[K + 1:], n, lambda t, lf=lack, a=(up if rp is None else us): tail_test(lf, t, a, fn.body[K + 1:]))
+                        txt = f"{q}: `{n}`, which the code after the parallel/serial split reads, is bound on the paths on which it is read [{ws}]"
+                        if use == READ:
+                            ag.add(txt, False, fn, "unbound on the " + ("parallel" if rp is None else "serial") + " path, where the code after the "
+                                   "split reads it before any assignment: NameError / UnboundLocalError there")
+                        elif use == MAYREAD:
+                            undecided.add((txt + ": unbound on the " + ("parallel" if rp is None else "serial") + " path, where a read that depends "
+                                           "on tests the analysis does not decide may come first", fn))
                         continue
                     shp_p, shp_s = _shapes(p, rp, up), _shapes(s, rs, us)
                     for k in sorted(set(shp_p) & set(shp_s)):
